@@ -2393,3 +2393,53 @@ fn extract_group(filter: &str) -> Option<(String, String)> {
 // //         dbg!(trackers);
 // //     }
 // // }
+
+#[cfg(rumqtt_verif)]
+impl Router {
+    /// Handle exactly one event, as `run_inner` does for every `(id, event)` it receives.
+    pub fn verif_event(&mut self, id: ConnectionId, event: Event) {
+        self.events(id, event)
+    }
+
+    /// One call of `consume()`; `false` when it returned `None`.
+    pub fn verif_consume(&mut self) -> bool {
+        self.consume().is_some()
+    }
+
+    /// Read-only dump of scheduling state (diagnostics for the verification harness).
+    pub fn verif_snapshot(&self) -> String {
+        let mut s = format!("RQ{:?}", self.scheduler.readyqueue);
+        for (id, t) in self.scheduler.trackers.iter() {
+            s += &format!(" T{}:{}:{:?}[", id, t.id, t.status);
+            for r in t.data_requests.iter() {
+                s += &format!(
+                    "({},{},q{},{}.{},{},{:?})",
+                    r.filter, r.filter_idx, r.qos, r.cursor.0, r.cursor.1, r.forward_retained, r.group
+                );
+            }
+            s += "]";
+        }
+        for (idx, data) in self.datalog.native.iter() {
+            let off = data.log.next_offset();
+            s += &format!(" L{}:{}.{}[", idx, off.0, off.1);
+            for (id, r) in data.waiters.waiters().iter() {
+                s += &format!("({}:{},{}.{})", id, r.filter, r.cursor.0, r.cursor.1);
+            }
+            s += "]";
+        }
+        for (id, o) in self.obufs.iter() {
+            s += &format!(" O{}:{}", id, o.verif_inflight());
+        }
+        let mut groups: Vec<String> = self
+            .shared_subscriptions
+            .iter()
+            .map(|(name, g)| format!(" G{}:{}", name, g.verif_dump()))
+            .collect();
+        groups.sort();
+        s += &groups.concat();
+        let mut wills: Vec<&String> = self.last_wills.keys().collect();
+        wills.sort();
+        s += &format!(" W{:?} N{}", wills, self.notifications.len());
+        s
+    }
+}
